@@ -572,6 +572,12 @@ def job_c18_wait(clsname, seed, count=0):
                 fails.append({"what": "the waiting session received output of the other session",
                               "line": ln, "got": b"".join(sa.writer.take()).decode()[:120]})
                 return
+        # the process the server lives in goes on printing while a command waits: that output
+        # belongs to the process (stdout / stderr), never to a session's reply
+        import sys as _sys
+        stdout_before = _sys.stdout
+        print(token)
+        print(token, file=_sys.stderr)
         got = await sb.send("gather-and-close", rounds=40)
         n_checks += 1
         if [c.decode() for c in got] != ["ok\n"]:
@@ -587,12 +593,16 @@ def job_c18_wait(clsname, seed, count=0):
                           "got": ra, "expected": want})
         await sa.stop()
         await sb.stop()
+        if _sys.stdout is not stdout_before:
+            fails.append({"what": "a session left sys.stdout of the server process replaced"})
 
+    token = f"process-output-{seed}"
     with ctrlrun.captured_std() as (so, se):
         ctrlrun.run(go())
-    if so.getvalue() or se.getvalue():
-        fails.append({"what": "server printed on stdout/stderr", "stdout": so.getvalue()[:300],
-                      "stderr": se.getvalue()[:300]})
+    if not fails and (so.getvalue() != token + "\n" or se.getvalue() != token + "\n"):
+        fails.append({"what": "what the server process printed while a command was waiting did not reach its "
+                              "stdout/stderr unchanged (or the server printed something itself)",
+                      "stdout": so.getvalue()[:300], "stderr": se.getvalue()[:300], "expected": token})
     return [{"id": f"c18wait-{clsname}-{seed}", "class": clsname, "fails": fails, "checks": n_checks,
              "lines": ["until-closed"] + b_lines, "kinds": {"waiting-scenario": 1}, "samples": [], "two": True}]
 
